@@ -19,7 +19,7 @@ import (
 	"github.com/hattya/go.sh/interp"
 )
 
-var c17Values = []string{"a", "a b", "a ", "y", "y ", "x", "x ", "a ;", "a |", "if", "b=1", "b=1 ", "> f", "'x'", "a  ", "y \t", "y ; y", "y ; z"}
+var c17Values = []string{"a", "a b", "a ", "y", "y ", "x", "x ", "a ;", "a |", "if", "b=1", "b=1 ", "> f", "'x'", "a  ", "y \t", "y ; y", "y ; z", "a $(c)", "`c`", "a $((1)) ;", "a ${v:-w}", "a $(c) "}
 var c17Sigma = []string{"x", "y", "a", "'x'", "x=1", ";", "|", "if", "then", "fi", "(", ")", ">"}
 
 type c17Case struct {
@@ -239,7 +239,7 @@ func init() {
 	register(&check{
 		id:    "C17",
 		level: "model_checking",
-		rule: "every alias table with ≤ 2 entries (thorough: ≤ 3) over names {x y z} and the 18-value menu {a, 'a b', 'a ', y, 'y ', x, 'x ', 'a ;', 'a |', if, b=1, 'b=1 ', '> f', 'x', 'a  ' (two blanks), 'y <blank><tab>', 'y ; y', 'y ; z'} plus 8 fixed three-entry chain/cycle tables and 140 three-entry tables whose outer value holds several commands that are aliases (x → y…z, y → z, z → text) × every symbol string ≤ 3 (thorough: ≤ 4 for the tables of ≤ 2 entries) over {x y a 'x' x=1 ; | if then fi ( ) >}; " +
+		rule: "every alias table with ≤ 2 entries (thorough: ≤ 3) over names {x y z} and the 23-value menu (incl. values with $( ), backquote, $(( )) and ${ } expansions) {a, 'a b', 'a ', y, 'y ', x, 'x ', 'a ;', 'a |', if, b=1, 'b=1 ', '> f', 'x', 'a  ' (two blanks), 'y <blank><tab>', 'y ; y', 'y ; z'} plus 8 fixed three-entry chain/cycle tables and 140 three-entry tables whose outer value holds several commands that are aliases (x → y…z, y → z, z → text) × every symbol string ≤ 3 (thorough: ≤ 4 for the tables of ≤ 2 entries) over {x y a 'x' x=1 ; | if then fi ( ) >}; " +
 			"non-trivial = the reference replacement changes the text",
 		assume: []string{"the reference replacement (c17.go unfold) uses the grammar model to find command-name positions; the unfolded text is parsed by the real parser without aliases, so only the substitution itself is modelled",
 			"alias values containing newlines are exercised for termination only (C01)"},
